@@ -240,7 +240,7 @@ func checkC07(c *Ctx) {
 		return
 	}
 	defer os.RemoveAll(dir)
-	nplumb := 400
+	nplumb := 1200
 	if !c.Quick() {
 		nplumb = 8000
 	}
@@ -346,7 +346,7 @@ func checkC07(c *Ctx) {
 		// one word of the effective font's default width is written with a letter that is in no table
 		dw := cfg.Fonts[effFont].Widths["default"]
 		for wi, t := range toks {
-			if t == dw && r.Chance(1, 2) && strings.Count(text, words[wi]) == 1 {
+			if t == dw && r.Chance(3, 4) && strings.Count(text, words[wi]) == 1 {
 				text = strings.Replace(text, words[wi], "Q", 1)
 				words[wi] = "Q"
 				break
